@@ -494,8 +494,8 @@ func (r *Report) writeEvidence(oblist []*Oblig, nObl, nDis int, knownHit []strin
 		if c.Trusted {
 			continue
 		}
-		if c.HasMod && !c.Props["C20"] {
-			assumptions = append(assumptions, "modifies clause of "+k+" is declared but not checked against the body")
+		if c.HasMod && c.FrameAssumed != "" {
+			assumptions = append(assumptions, "modifies clause of "+k+" is declared but NOT checked against the body (frame assumed: "+c.FrameAssumed+")")
 		}
 		if c.NoSafety {
 			assumptions = append(assumptions, "run-time safety (bounds, nil, overflow) of "+k+" is not checked (nosafety)")
